@@ -18,7 +18,7 @@ while [ $# -gt 0 ]; do
 done
 [ ${#ids[@]} -eq 0 ] && ids=($(ls selftest | grep -E '^C[0-9]+$'))
 if [ -n "$(git -C /repo status --porcelain)" ]; then echo "/repo is dirty; refusing"; exit 2; fi
-trap 'git -C /repo checkout -- . 2>/dev/null' EXIT
+trap '(git -C /repo checkout -- . && git -C /repo clean -fdq src tests) 2>/dev/null' EXIT
 fail=0
 for id in "${ids[@]}"; do
     out=$(./check "$id" "$tier" 2>&1); rc=$?
@@ -32,7 +32,7 @@ for id in "${ids[@]}"; do
             [ "$n" -ge 217 ] || { echo "NOTE  $id/$name: only $n repo tests pass (expected >= 217)"; }
         fi
         out=$(./check "$id" "$tier" 2>&1); rc=$?
-        git -C /repo checkout -- .
+        git -C /repo checkout -- . && git -C /repo clean -fdq src tests
         if [ $rc -eq 1 ] && echo "$out" | grep -q "^VIOLATION property=$id "; then
             echo "ok    $id/$name: detected ($(echo "$out" | grep -m1 '^violation rule=' | cut -c1-150))"
         else
@@ -45,7 +45,7 @@ for id in "${ids[@]}"; do
         name=$(basename "$p" .diff)
         if ! git -C /repo apply "$PWD/$p" 2>/dev/null; then echo "FAIL  $id/equivalent/$name: patch does not apply"; fail=1; continue; fi
         out=$(./check "$id" "$tier" 2>&1); rc=$?
-        git -C /repo checkout -- .
+        git -C /repo checkout -- . && git -C /repo clean -fdq src tests
         if [ $rc -eq 0 ]; then echo "ok    $id/equivalent/$name: no alarm"; else echo "FAIL  $id/equivalent/$name: alarm on behaviour-preserving change (exit $rc)"; echo "$out" | tail -3; fail=1; fi
     done
 done
